@@ -1,1 +1,4 @@
-/- C04: property theorems (not built yet). -/
+/- C04: property theorems (in progress). -/
+import Pycel.Model.Needed
+namespace Pycel.Needed
+end Pycel.Needed
